@@ -509,6 +509,9 @@ type disGen struct {
 	file  string
 	sites int
 	odd   int // malformed lines
+	lastN       int  // number of the previous load
+	haveLast    bool
+	lastUnknown bool // … which no table holds
 }
 
 func newDisGen(rng *rand.Rand, archName string) *disGen {
@@ -541,11 +544,20 @@ func insertUnderscores(rng *rand.Rand, digits string) string {
 func (g *disGen) numText() string {
 	rng := g.rng
 	var n int
+	unknown := false
 	switch k := rng.Intn(20); {
+	case g.haveLast && (g.lastUnknown && rng.Intn(2) == 0 || rng.Intn(10) == 0):
+		// the same number as the previous load (what a one-entry lookup memo would see)
+		n, unknown = g.lastN, g.lastUnknown
+		g.tag("num:same-as-previous-load")
+		if unknown {
+			g.tag("num:same-unknown-number-twice")
+		}
 	case k < 14:
 		n = g.nums[rng.Intn(len(g.nums))]
 	case k < 15: // not in the table
-		n = []int{100000, 335 + rng.Intn(80), 1 << 20, 0x7fffffff, 4096 + rng.Intn(100)}[rng.Intn(5)]
+		n = []int{100000, 335 + rng.Intn(80), 1 << 20, 0x7fffffff, 4096 + rng.Intn(100), 8192}[rng.Intn(6)]
+		unknown = true
 		g.tag("num:unknown")
 	case k < 16: // a table number with extra high bits: x32 bit, sign bit of 32 bits, bit 32, 16-bit wrap
 		base := g.nums[rng.Intn(len(g.nums))]
@@ -556,6 +568,7 @@ func (g *disGen) numText() string {
 	default:
 		n = rng.Intn(460)
 	}
+	g.lastN, g.haveLast, g.lastUnknown = n, true, unknown
 	switch k := rng.Intn(40); {
 	case k < 14:
 		g.tag("num:hex")
